@@ -45,11 +45,13 @@ AngleShift == iv.k = "angle" /\ \E x \in Shifts : iv' = AState(ExpAngleShift(AI,
 Next == Construct \/ Add \/ Sub \/ Mul \/ Div \/ Round \/ Intersect \/ AngleShift
 Spec == Init /\ [][Next]_vars
 
-(* second angle intervals J used with A: every offset of the start around the circle x the lengths JLens *)
-JsFor(A) == {J \in AIntervals : /\ J.len \in JLens
-                                /\ LET d == (J.a - A.a) % Turn
-                                       r == IF A.a + d <= Turn THEN A.a + d ELSE A.a + d - Turn      \* representative in range
-                                   IN J.a = r \/ (JBoth /\ (J.a = r - Turn \/ J.a = r + Turn))}
+(* second angle intervals J used with A: every offset d of the start around the circle x the lengths JLens *)
+JsFor(A) == LET R(d) == IF A.a + d <= Turn THEN A.a + d ELSE A.a + d - Turn                    \* representative in -Turn..Turn
+                D == 0..(Turn - 1)
+            IN {[a |-> R(d), len |-> n] : d \in D, n \in JLens}
+               \cup (IF JBoth THEN {[a |-> R(d) - Turn, len |-> n] : d \in {x \in D : R(x) >= 0}, n \in JLens}
+                                   \cup {[a |-> R(d) + Turn, len |-> n] : d \in {x \in D : R(x) <= 0}, n \in JLens}
+                     ELSE {})
 
 (* ---- laws as invariants: all arguments ---- *)
 IsP == iv.k = "plain"
@@ -84,6 +86,15 @@ StepOK(I, op, R) ==
          /\ R.k = "angle" /\ R.len >= 0 /\ InDomain([a |-> R.a, len |-> R.len])
          /\ ASetT[[a |-> R.a, len |-> R.len]] = {(p + 2 * op.x) % T2 : p \in ASetT[[a |-> I.a, len |-> I.len]]}
 StepImage == [][StepOK(iv, act', iv')]_vars
+
+(* ---- size of the EITHER bands over the generated argument space (printed once; recorded in the evidence) ---- *)
+Band(S) == [either |-> Cardinality({x \in S : x[3] = "EITHER"}), total |-> Cardinality(S)]
+BandStats ==
+  PrintT(<<"BAND", ToJson([
+    angle_contains |-> Band({<<A, th, ExpAngleContains(A, 2 * th)>> : A \in AIntervals, th \in -ThMax..ThMax}),
+    angle_contains_interval |-> Band(UNION {{<<A, J, ExpAngleContainsInterval(A, J)>> : J \in JsFor(A)} : A \in AIntervals}),
+    angle_overlaps |-> Band(UNION {{<<A, J, ExpAngleOverlaps(A, J)>> : J \in JsFor(A)} : A \in AIntervals})])>>)
+ASSUME BandStats
 
 (* ---- generation: one case per interval, with the argument domains of every operation ---- *)
 HQueries == {2 * x : x \in -(K + 2)..(K + 2)}
